@@ -635,6 +635,29 @@ def rids_wire_ids_derive_both(ctx):
     wire_ids_derive_both(ctx, "C15.IDS")
 
 
+def r17_clients_accept_only_what_the_wire_types_accept(ctx):
+    """what a client takes for a reply is what `Response`'s own decoder accepts: on the client side every serde_json decode
+    of received bytes targets a wire type of jsonrpsee_types (or a list of raw values to be decoded as such), and no client
+    code builds a `Response` by hand. A fallback decoder with a struct of its own (`legacy servers send both members`)
+    accepts objects with both or neither of result/error, any `jsonrpc` value, duplicated members - on that entry point only."""
+    F, R = ctx.F, ctx.R
+    n = 0
+    for b in F.real_bodies():
+        if is_test_body(b) or not re.search(r"^<?jsonrpsee_(http_client::(rpc_service|client|transport)|core::client::async_client)", b.path):
+            continue
+        for c in b.calls_to(r"^serde_json::(de::)?from_(slice|str|reader)$"):
+            if not c.ga:
+                continue
+            n += 1
+            ty = c.ga[-1]
+            ok = bool(re.match(r"^(jsonrpsee_types::|&?serde_json::value::RawValue$|std::vec::Vec<&|std::vec::Vec<jsonrpsee_types::|std::vec::Vec<std::boxed::Box<serde_json::value::RawValue|serde_json::Value$|serde_json::value::Value$|jsonrpsee_core::JsonValue$|[A-Z]\w*$)", ty))   # a bare generic parameter is the caller's result type
+            R.check(ok, "C15.R17", "%s:decodes-a-wire-type:%s" % (fkey(b), ty[:50]), "the client decodes received bytes as a wire type", "%s decodes received bytes as `%s`, a type of its own: replies the wire types reject (both / neither of result and error, a wrong `jsonrpc`, duplicated members) are accepted on this path" % (short(b.path), ty[:80]), where(c))
+        # (placeholders for unanswered batch entries are built elsewhere, by design; a single call's reply never is)
+        fab = b.calls_to(r"jsonrpsee_types::(response::)?Response::<.*>::new$") if re.search(r"jsonrpsee_http_client::rpc_service", b.path) else []
+        R.check(not fab, "C15.R17", "%s:no-hand-made-response" % fkey(b), "no response object is fabricated on the client side", "%s builds a Response by hand (Response::new): what the caller gets is not what the reply's own decoder produced" % short(b.path), where(fab[0]) if fab else None)
+    R.floor("C15.R17", n, 6, "decodes of received bytes on the client side")
+
+
 def r16_server_error_kind_has_one_source(ctx):
     """every code has one kind: `ErrorCode::ServerError(n)` is built by `From<i32> for ErrorCode` alone, on its fallback
     arm. Built by hand elsewhere it can carry a code that has a dedicated kind (-32007 is OversizedRequest): the bytes on
@@ -662,7 +685,7 @@ def rbatch_nothing_but_response_objects_is_emitted(ctx):
     c02.r5_append_writes_every_entry(ctx)
 
 
-RULES = [r16_server_error_kind_has_one_source, rbatch_nothing_but_response_objects_is_emitted, r1_code_tables, r2_serializer, r3_field_tables, r4_duplicate_guards, r5_acceptance_table, r6_no_handmade_json, r7_no_borrowed_str, r8_into_owned_is_fieldwise, r9_client_tries_response_first, r10_http_errors_keep_the_envelope, r11_subscription_id_numbers_are_u64, r12_derived_writers_mirror_their_readers, r13_request_decoder_is_plain, r14_null_id_is_an_id, r15_replies_are_decoded_from_their_text, rids_wire_ids_derive_both, rkey_unsubscribe_reads_the_id_as_written]
+RULES = [r17_clients_accept_only_what_the_wire_types_accept, r16_server_error_kind_has_one_source, rbatch_nothing_but_response_objects_is_emitted, r1_code_tables, r2_serializer, r3_field_tables, r4_duplicate_guards, r5_acceptance_table, r6_no_handmade_json, r7_no_borrowed_str, r8_into_owned_is_fieldwise, r9_client_tries_response_first, r10_http_errors_keep_the_envelope, r11_subscription_id_numbers_are_u64, r12_derived_writers_mirror_their_readers, r13_request_decoder_is_plain, r14_null_id_is_an_id, r15_replies_are_decoded_from_their_text, rids_wire_ids_derive_both, rkey_unsubscribe_reads_the_id_as_written]
 
 LEVEL_TEXT = (
     "Decision tables and structural facts extracted exactly from the type-checked serde code: the error-code tables are "
